@@ -57,6 +57,12 @@ def _own_validator(prog, cls_name, hint):
         loops = [n for n in astx.walk_own(m.node) if isinstance(n, ast.For) and astx.u(n.iter) == f"{m.params[1]}.ballots"]
         if loops and any(astx.raise_type(r) == "TypeError" for r in astx.raises_in(m.node)):
             hits.append(m)
+    if not hits:
+        # the validation may live in the constructor itself (a helper that the rules do not know is analysed as part of it)
+        init = cls.methods.get("__init__")
+        if init is not None and len(init.params) > 1 and any(astx.raise_type(r) == "TypeError" for r in astx.raises_in(init.node)) \
+                and any(isinstance(n, ast.For) and astx.u(n.iter) == f"{init.params[1]}.ballots" for n in astx.walk_own(init.node)):
+            return init
     if len(hits) != 1:
         raise AnalysisError(f"anchor-missing: {cls_name}: expected one own ballot validator ({hint}), found {[m.name for m in hits]}")
     return hits[0]
@@ -88,7 +94,12 @@ def r1_ballot_data(ctx):
     obligation(ctx, f, "row 2: STV rejects ballots without ranking (TypeError, every ballot)", "not b.ranking", "TypeError", rename=_rn({b: "b"}), forall=True)
     obligation(ctx, f, "row 3: STV rejects tied positions (TypeError, every ballot)", "any(len(s) > 1 for s in b.ranking)", "TypeError", rename=_rn({b: "b"}), forall=True)
     init = prog.find_func("STV.__init__")
-    called_before(ctx, init, f.name, "STV validates its profile before anything else", first_arg=init.params[1])
+    if f is init:
+        sup = facts.super_init_call(init)
+        rs_ = [r for r in astx.raises_in(init.node) if astx.raise_type(r) == "TypeError"]
+        ctx.check(sup is not None and all(r.lineno < sup.lineno for r in rs_), init, init.node, "STV validates its profile before anything else", "", "the ballot validation does not precede the election")
+    else:
+        called_before(ctx, init, f.name, "STV validates its profile before anything else", first_arg=init.params[1])
     # 4,5 PluralityVeto
     f = _own_validator(prog, "PluralityVeto", "_pv_validate_profile")
     b = _ballot_loop_var(f)
@@ -96,7 +107,13 @@ def r1_ballot_data(ctx):
     obligation(ctx, f, "row 5: PluralityVeto rejects non-integer weights (TypeError, every ballot)", "int(b.weight) != b.weight", "TypeError",
                rename=_rn({b: "b"}), forall=True)
     init = prog.find_func("PluralityVeto.__init__")
-    called_before(ctx, init, f.name, "PluralityVeto validates its profile before anything else", first_arg=init.params[1])
+    if f is init:
+        rebound = [n for n in astx.walk_own(init.node) if isinstance(n, ast.Name) and n.id == init.params[1] and isinstance(n.ctx, ast.Store)]
+        rs_ = [r for r in astx.raises_in(init.node) if astx.raise_type(r) == "TypeError"]
+        ctx.check(bool(rs_) and all(r.lineno < min((n.lineno for n in rebound), default=10 ** 9) for r in rs_), init, init.node, "PluralityVeto validates its profile before anything else", "",
+                  "the ballot validation does not precede the re-binding of the profile")
+    else:
+        called_before(ctx, init, f.name, "PluralityVeto validates its profile before anything else", first_arg=init.params[1])
     # 6,7 transfers
     for name in ("random_transfer", "fractional_transfer"):
         f = prog.find_func(name)
